@@ -547,8 +547,10 @@ def apply_op(obj, model, op, arg):
             atoms = [obj.get_atom(i) for i in range(n)]
             more = a.Atom(atoms[k].coord, **{c: getattr(atoms[k], c) for c in cats}, extra_cat=1)
             allmore = [a.Atom(a_.coord, **{c: getattr(a_, c) for c in cats}, extra_cat=1) for a_ in atoms]
-            for label, lst in (("an additional", atoms[:k] + [more] + atoms[k + 1:] + [more]), ("a missing", allmore + [atoms[k]]),
-                               ("an additional", atoms + [more])):
+            lists = [("an additional", atoms + [more]), ("a missing", allmore + [atoms[k]])]
+            if n >= 2:
+                lists.append(("an additional", atoms[:k] + [more] + atoms[k + 1:]))       # (with one atom this list would be uniform)
+            for label, lst in lists:
                 try:
                     a.array(lst)
                 except ValueError:
